@@ -785,7 +785,7 @@ def differential_witness(fn):
             w = diffref.find(names[fn.lower()], seeds=1500)
             scope = 'routine %s, 1500 seeds per level' % fn
         else:
-            p = subprocess.run([exe, 'survey', '150'], capture_output=True, text=True, timeout=3600)
+            p = subprocess.run([exe, 'survey', '150'], capture_output=True, text=True, timeout=900)
             scope = 'every nuclide and cascade routine, 150 seeds per level (the failed obligation is in a shared kernel)'
             for ln in p.stdout.split('\n'):
                 m = re.match(r'^DIFF (\S+) level (\d+) seed (\d+)', ln)
